@@ -5,7 +5,7 @@
    every run, not proved.  parse_lines = parse_script after line splitting; llines = the logical lines. *)
 From BS Require Import Model.Base Model.Regex Model.Num Model.ExprParser Model.Script Model.ScriptX Model.Lower
   Gen.Unicode Proofs.ScriptFacts Proofs.C06 Proofs.C10 Proofs.C10ws Proofs.C10wsExpr Proofs.C10wsIndent
-  Proofs.ExprFuel Proofs.C10wsFull.
+  Proofs.ExprFuel Proofs.C10wsFull Proofs.RegexShiftG Proofs.C10wsIndent2.
 
 (* ---- LF versus CRLF: both texts have the same lines ---- *)
 Theorem C10_crlf : forall lines, lines <> [] -> Forall no_lf lines -> Forall (fun l => ends_cr l = false) lines ->
@@ -124,15 +124,41 @@ Theorem C10_ws_indentation_partial : forall n ws line k, white ws -> indent_kind
 Proof. exact classify_indent. Qed.
 Print Assumptions C10_ws_indentation_partial.
 
+(* ---- INDENTATION of EVERY statement line, also function-begin / jump / jumpif / return (Proofs/C10wsIndent2.v).  Their
+   regexes open a capture group at the start of the line with the `\s*` inside it (`^(?P<jump>\s*(?:jump|jumpif..))`,
+   `^(?P<return>\s*return..)`, `^(?P<async>\s*async)?\s*function`).  Proved operationally (Proofs/RegexShiftG.v): the ENGINE's
+   answer on ws ++ line is its answer on line with every position moved by |ws| except the start of that outer group, which
+   stays 0 — so all other captured texts (name, expr, args, ...) and "which groups matched" are unchanged; the outer group's
+   own text only feeds the error column.  Only restriction left: an elif whose condition does NOT parse (its kind carries
+   the parser error with the column).  PARTIAL w.r.t. the clause only in that it is about LEADING whitespace. ---- *)
+Theorem C10_ws_indentation : forall n ws line k, white ws -> indent_kind_all k = true ->
+  Lower.classify n line = ROk k -> Lower.classify n (ws ++ line) = ROk k.
+Proof. exact classify_indent_all. Qed.
+Print Assumptions C10_ws_indentation.
+
+(* the engine-level statements behind it *)
+Theorem C10_ws_indent_jump : forall ws line, white ws ->
+  rxm Gen.Regexes.R_SCRIPT_JUMP (ws ++ line) = shiftrg (length ws) 1 (rxm Gen.Regexes.R_SCRIPT_JUMP line).
+Proof. exact jump_shift. Qed.
+Theorem C10_ws_indent_return : forall ws line, white ws ->
+  rxm Gen.Regexes.R_SCRIPT_RETURN (ws ++ line) = shiftrg (length ws) 1 (rxm Gen.Regexes.R_SCRIPT_RETURN line).
+Proof. exact return_shift. Qed.
+Theorem C10_ws_indent_function_begin : forall ws line, white ws ->
+  rxm Gen.Regexes.R_SCRIPT_FUNCTION_BEGIN (ws ++ line) = shiftrg (length ws) 1 (rxm Gen.Regexes.R_SCRIPT_FUNCTION_BEGIN line).
+Proof. exact fn_begin_shift. Qed.
+Print Assumptions C10_ws_indent_function_begin.
+
 (* C10_ws_tokens_partial — the FULL clause "breaking a line at any point where a space is allowed / changing indentation or
    trailing whitespace yields the same statement" needs whitespace-insensitivity of EVERY statement regex and of the
    expression lexer at EVERY gap.  PROVED: the keyword-only statements with any indentation and trailing whitespace
-   (C10_ws_keyword_lines, C10_ws_else_gap); a leading whitespace run in front of an expression
-   (C10_ws_expression_leading_partial / _ok); indentation of every statement kind except function-begin, jump/jumpif
-   and return (C10_ws_indentation_partial).
-   NOT proved (oracle only): indentation of function-begin / jump / jumpif / return lines; trailing whitespace and inner
-   gaps of the statements that carry an expression or a name (assignment, function, if/elif/while/for, label, jump/jumpif,
-   return, include); whitespace between the tokens of an expression; these are checked metamorphically by the direct oracle (harness/c10_oracle.py) at every inter-token gap.
+   (C10_ws_keyword_lines, C10_ws_else_gap); a leading whitespace run in front of an expression, no fuel premise
+   (C10_ws_expression_leading_partial / _err / _ok, C10_expression_fuel_suffices); indentation of EVERY statement kind
+   (C10_ws_indentation; C10_ws_indentation_partial is the earlier version without function-begin / jump / jumpif / return).
+   NOT proved (oracle only): trailing whitespace and inner gaps of the statements that carry an expression or a name
+   (assignment, function, if/elif/while/for, label, jump/jumpif, return, include) — with a trailing run the greedy `.+` of an
+   expression group captures the run too, so this needs whitespace-insensitivity of the expression lexer at the END of the
+   text plus a per-regex uniqueness argument; whitespace between the tokens of an expression.  These are checked
+   metamorphically by the direct oracle (harness/c10_oracle.py) at every inter-token gap.
    C10_stateless: parse_script / parse_expression of the model are Gallina functions, so determinism and absence
    of state between calls are definitional; on the implementation they are tested by interleaved repeated calls. *)
 
@@ -180,6 +206,14 @@ Proof.
   split; [eexists; split; vm_compute; reflexivity|].
   repeat split; vm_compute; reflexivity.
 Qed.
+
+Example C10_ex_ws_indentation_all :
+  (exists k, indent_kind_all k = true /\ Lower.classify 3 (U "jumpif (x > 1) top") = ROk k /\ Lower.classify 3 (U " \000009 jumpif (x > 1) top") = ROk k) /\
+  (exists k, indent_kind_all k = true /\ Lower.classify 3 (U "jump top") = ROk k /\ Lower.classify 3 (U "    jump top") = ROk k) /\
+  (exists k, indent_kind_all k = true /\ Lower.classify 3 (U "return x + 1") = ROk k /\ Lower.classify 3 (U "  return x + 1") = ROk k) /\
+  (exists k, indent_kind_all k = true /\ Lower.classify 3 (U "async function f(a, b...):") = ROk k /\ Lower.classify 3 (U "   async function f(a, b...):") = ROk k) /\
+  (exists k, indent_kind_all k = true /\ Lower.classify 3 (U "function g():") = ROk k /\ Lower.classify 3 (U "\000009function g():") = ROk k).
+Proof. repeat split; (eexists; split; [|split; vm_compute; reflexivity]; reflexivity). Qed.
 
 Example C10_ex_ws_indentation :
   (exists k, indent_kind k = true /\ Lower.classify 3 (U "x = fn(1) + 2") = ROk k /\ Lower.classify 3 (U " \000009  x = fn(1) + 2") = ROk k) /\
